@@ -267,7 +267,7 @@ func (f *Frame) frameAllowed() {
 }
 
 func frameExempt(k string) bool {
-	return k == "alloc" || strings.HasPrefix(k, "LW.") || strings.HasPrefix(k, "LR.") || strings.HasPrefix(k, "ITER.") || strings.HasPrefix(k, "CH.pending") || strings.HasPrefix(k, "CH.nrecv")
+	return k == "alloc" || strings.HasPrefix(k, "LW.") || strings.HasPrefix(k, "LR.") || strings.HasPrefix(k, "ITER.") || strings.HasPrefix(k, "CH.pending") || strings.HasPrefix(k, "CH.nrecv") || k == "CH.taken"
 }
 
 // frameGoal: "every cell of component k that existed at entry and is outside the modifies clause has its entry value in st"
